@@ -597,6 +597,7 @@ pub fn explore(thorough: bool, result_path: &str) {
         write_result(&result_path_s, &res);
         std::process::exit(0);
     };
+    let children = std::thread::spawn(move || run_children(thorough));
     let rep = par_run_watched(total, threads(), 30, &on_hang, |i, rep| {
         let (k, j) = locate(i);
         let case = (subs[k].gen)(j);
@@ -649,7 +650,8 @@ pub fn explore(thorough: bool, result_path: &str) {
         }
     });
     let mut rep = rep;
-    explore_flat(thorough, &mut rep);
+    let (flat_results, nest_results) = children.join().expect("the thread that runs the child processes panicked");
+    merge_children(&mut rep, flat_results, nest_results);
     let spaces: Vec<Value> = subs.iter().map(|s| json!({"name": s.name, "size": s.size})).collect();
     let mut extra = Map::new();
     extra.insert("spaces".into(), json!(spaces.len()));
@@ -800,7 +802,10 @@ pub fn flat_sizes(thorough: bool) -> &'static [usize] {
 }
 
 /// explore the flat families (sequentially over sizes, kinds in parallel)
-fn explore_flat(thorough: bool, rep: &mut Report) {
+type ChildResult = (usize, usize, Result<(Option<(String, String)>, Value), String>);
+
+/// runs the child-process families (this only starts and waits for processes: it runs next to the in-process sweep)
+fn run_children(thorough: bool) -> (Vec<ChildResult>, Vec<ChildResult>) {
     let sizes = flat_sizes(thorough);
     let results: Vec<(usize, usize, Result<(Option<(String, String)>, Value), String>)> = std::thread::scope(|sc| {
         let hs: Vec<_> = (0..FLAT_KINDS.len())
@@ -841,6 +846,10 @@ fn explore_flat(thorough: bool, rep: &mut Report) {
             .collect();
         hs.into_iter().flat_map(|h| h.join().unwrap()).collect()
     });
+    (results, nest_results)
+}
+
+fn merge_children(rep: &mut Report, results: Vec<ChildResult>, nest_results: Vec<ChildResult>) {
     for (k, n, r) in nest_results {
         rep.states += 1;
         rep.transitions += 1;
